@@ -5,19 +5,23 @@ import os
 
 ROOT = os.path.dirname(os.path.dirname(os.path.abspath(__file__)))
 
-CHECKS = {
-    "C13": dict(
-        spec="Queue.tla (+MC_Queue, Gen_Queue, Trace_Queue)",
-        text="TLC checks exhaustively (capacity<=4 quick / <=5 thorough, every start offset and fill, every call with every "
-             "length) that the ring design (store/max/off/len) implements a plain byte deque and that refusals change nothing; "
-             "every transition of the model's control skeleton is then replayed into the real struct queue (result class, returned "
-             "bytes and full logical content compared after each call), and seeded histories recorded from the real code at "
-             "capacities 7..300 are validated by TLC against the same specification.",
-        note="Trusted: TLC, drv/queue.c (projection only), bounded model; memory safety of the calls is observed by guard bytes "
-             "and ASan on each executed call, not proved.",
-        technique="TLA+ spec + TLC exhaustive check; TLC-generated behaviours replayed into the C code; TLC trace validation of recorded runs",
-        design="5/C13"),
-}
+import glob
+import importlib
+import sys
+
+sys.path.insert(0, os.path.join(ROOT, "bin"))
+sys.path.insert(0, os.path.join(ROOT, "checks"))
+
+
+def load_checks():
+    """Every checks/cNN.py that defines MANIFEST = dict(spec=, text=, note=, technique=, design=[, category=])."""
+    out = {}
+    for f in sorted(glob.glob(os.path.join(ROOT, "checks", "c[0-9]*.py"))):
+        mod = importlib.import_module(os.path.basename(f)[:-3])
+        if getattr(mod, "MANIFEST", None):
+            out[mod.PID] = mod.MANIFEST
+    return out
+
 
 NOT_YET = "check not built yet (planned in DESIGN.md section 5); no claim is made"
 
@@ -26,6 +30,7 @@ def main():
     props = [json.loads(l) for l in open(os.path.join(ROOT, "properties.jsonl"))]
     checks = []
     na = []
+    CHECKS = load_checks()
     for p in props:
         pid = p["id"]
         c = CHECKS.get(pid)
